@@ -110,6 +110,13 @@ def render(case, bugs=(0, 0, 0, 0), threads=None, choices=None):
 
 def parse_out(line):
     """-> list of (res, time, [entries]) or None when the line is not an observation list."""
+    try:
+        return _parse_out(line)
+    except Exception:
+        return None
+
+
+def _parse_out(line):
     if line is None or line.startswith(("ERR", "HANG", "HARNESS", "NO-OUTPUT", "PANIC")):
         return None
     line = line.split(" || ")[0]
@@ -164,5 +171,9 @@ def parse_drop(line):
     if line is None or " || D:" not in line:
         return None
     x = line.split(" || D:")[1]
+    leak = None
+    if " A:" in x:
+        x, a = x.rsplit(" A:", 1)
+        leak = int(a)
     n, rest = x.split(":", 1)
-    return int(n), rest.strip("[]").split()
+    return int(n), rest.strip("[]").split(), leak
